@@ -96,6 +96,40 @@ class Bus:
                 v["x"] = x
         return v
 
+    def near_same(self, v):
+        """a value that differs from v as little as JSON allows (or not at all): whoever compares instead of copying shows"""
+        import copy
+        rng = self.rng
+        v = copy.deepcopy(v)
+        r = rng.random()
+        if r < 0.2:
+            return v                                    # the same value again
+        def flip(k):
+            return k.swapcase() if k.swapcase() != k else k + "_"
+        if isinstance(v, dict) and v:
+            k = rng.choice(sorted(v))
+            if r < 0.6:
+                v[flip(k)] = v.pop(k)                   # member name in the other letter case
+            elif r < 0.8:
+                x = v[k]
+                v[k] = str(x) if isinstance(x, (int, float)) and not isinstance(x, bool) else [x]
+            else:
+                v[k + " "] = v.pop(k)
+            return v
+        if isinstance(v, list) and v:
+            if r < 0.6 and isinstance(v[-1], dict) and v[-1]:
+                k = sorted(v[-1])[0]
+                v[-1][flip(k)] = v[-1].pop(k)
+                return v
+            return v[:-1] if r < 0.8 else v + [None]
+        if isinstance(v, bool):
+            return int(v)
+        if isinstance(v, (int, float)):
+            return rng.choice([str(v), v + 1, float(v), [v]])
+        if isinstance(v, str):
+            return rng.choice([v.swapcase(), v + " ", v[:-1]])
+        return [v]
+
     def alive(self):
         return [c for c in self.peers if c.alive()]
 
@@ -160,7 +194,7 @@ class Bus:
             if rng.random() < 0.15:
                 pr["fetchOnly"] = True
         if self.o["timeouts"] and rng.random() < 0.3:
-            pr["timeout"] = rng.choice([0.5, 1, 2.5, 10])
+            pr["timeout"] = rng.choice([0.5, 1, 2.5, 10, 10, 4294967296.5])       # (the last: whole seconds above 32 bits)
         self.note("add", c.name, pr)
         S.request(c, "add", pr, chunks=pick_chunks(rng))
 
@@ -196,6 +230,10 @@ class Bus:
         else:
             path = rng.choice(self.paths)
         pr = {"path": path, "value": self.val(c)}
+        e = S.elements.get(path)
+        if e is not None and e.is_state and rng.random() < 0.25:
+            pr["value"] = self.near_same(e.value)
+            S.sig("change-to-near-same-value", type(e.value).__name__)
         self.note("change", c.name, pr)
         S.request(c, "change", pr, chunks=pick_chunks(rng))
 
@@ -268,7 +306,7 @@ class Bus:
         else:
             pr["args"] = rng.choice([[S.next_val(c)], {"k": S.next_val(c)}])
         if self.o["timeouts"] and rng.random() < 0.3:
-            pr["timeout"] = rng.choice([0.25, 1.5, 3, 7])
+            pr["timeout"] = rng.choice([0.25, 1.5, 3, 7, 7, 4294967296.25, 4294967297])
         idv = AUTO
         r = rng.random()
         if r < self.o["id_less"]:
